@@ -107,7 +107,7 @@ pub fn c03() -> EngineProp {
     EngineProp {
         id: "C03",
         oracles: Oracles { structure: true, ..Default::default() },
-        profiles: vec![(Profile::Structural, 16000, 600_000), (Profile::General, 8000, 300_000), (Profile::Vis, 8000, 300_000), (Profile::Related, 2000, 100_000)],
+        profiles: vec![(Profile::Structural, 16000, 600_000), (Profile::General, 8000, 300_000), (Profile::Vis, 18000, 400_000), (Profile::Related, 2000, 100_000)],
         nontrivial: |s| has(s, "frame_without_tick_between_ops") || has(s, "multi_upd_one_client_frame") || has(s, "vis_change"),
         rule: "cases as C01 with a structure-heavy profile; after EVERY client frame: ServerUpdateTick never decreases and is 0 or a tick at which an update message \
                was sent to this client; key set of the entity map, its inverse, Replicated markers and per-entity component sets equal the recorded structure the \
